@@ -358,18 +358,38 @@ class C13Events(Machine):
             scale = max(R, dzv)
             if math.hypot(v[0], v[1]) > R * (1 + 1e-12) or v[2] > 0 or v[2] < -dzv * (1 + 1e-12):
                 raise Violation("C13:vertex-outside", "vertex %r outside the cylinder r<=%r, -%r<=z<=0" % (v, R, dzv))
-            want_in, want_out = cyl_exit(v, d, R, dzv)
+            cands = [cyl_exit(v, d, R, dzv)]
+            diag = math.hypot(2 * R, dzv)
+            par = [False, False, abs(d[2]) * diag <= 1e-6]
         else:
             lo = np.array([-cfg["dx"] / 2, -cfg["dy"] / 2, -dzv])
             hi = np.array([cfg["dx"] / 2, cfg["dy"] / 2, 0.0])
             scale = float(np.max(hi - lo))
             if np.any(v < lo - 1e-9) or np.any(v > hi + 1e-9):
                 raise Violation("C13:vertex-outside", "vertex %r outside the box" % (v,))
-            want_in, want_out = box_exit(v, d, lo, hi)
+            cands = [box_exit(v, d, lo, hi)]
+            diag = float(np.linalg.norm(hi - lo))
+            par = [abs(d[i]) * diag <= 1e-6 for i in range(3)]
+        if any(par):
+            # the line runs parallel to a face to within rounding (a direction component of 1e-17
+            # from an injected extreme draw): whether that face cuts the chord is decided 1e-13 m
+            # away from the boundary, so the intersection without that face is as good an answer
+            d_par = np.array([0.0 if par[i] else d[i] for i in range(3)])
+            self.count("probe.grazing_line")
+            cands.append(cyl_exit(v, d_par, R, dzv) if cfg["kind"] == "cylindrical" else box_exit(v, d_par, lo, hi))
         st, pts = self.sut(self.gen.get_exit_points, p, where="get_exit_points")
         got_in, got_out = np.asarray(pts[0], dtype=float), np.asarray(pts[1], dtype=float)
         tol = 1e-6 + 1e-9 * scale
-        if np.max(np.abs(got_in - want_in)) > tol or np.max(np.abs(got_out - want_out)) > tol:
+        if cfg["kind"] == "cylindrical":
+            # conditioning of a (nearly) tangent line at the wall: sqrt(rounding of r^2 - R^2)
+            tol += 1e-7 * R
+        want_in = want_out = None
+        for c_in, c_out in cands:
+            if np.max(np.abs(got_in - c_in)) <= tol and np.max(np.abs(got_out - c_out)) <= tol:
+                want_in, want_out = c_in, c_out
+                break
+        if want_in is None:
+            want_in, want_out = cands[0]
             raise Violation("C13:exit-points", "get_exit_points gives %r -> %r, line/volume intersection is "
                             "%r -> %r (vertex %r, direction %r)" % (got_in, got_out, want_in, want_out, v, d))
         # weights
@@ -383,7 +403,8 @@ class C13Events(Machine):
         chord = float(np.linalg.norm(want_out - want_in))
         travel = float(np.linalg.norm(v - want_in))
         want_iw = chord / L_ice * math.exp(-travel / L_ice)
-        if abs(iw - want_iw) > 1e-7 * want_iw + 1e-300:
+        # (the chord and the distance travelled are only known to the tolerance of the points)
+        if abs(iw - want_iw) > 1e-7 * want_iw + 3 * tol / L_ice + 1e-300:
             raise Violation("C13:interaction-weight", "interaction weight %r, (chord/L) exp(-travel/L)=%r"
                             % (iw, want_iw))
         if cfg["shadow"]:
